@@ -7,6 +7,7 @@ require (
 	github.com/getlantern/golog v0.0.0-20210606115803-bce9f9fe5a5f
 	github.com/getlantern/wal v0.0.0-20220217194315-e4eac848dbd1
 	github.com/getlantern/zenodb v0.0.0
+	github.com/golang/snappy v0.0.3
 	github.com/gorilla/mux v1.7.1
 	github.com/gorilla/securecookie v1.1.1
 )
@@ -42,7 +43,6 @@ require (
 	github.com/go-redis/redis/v8 v8.11.3 // indirect
 	github.com/go-stack/stack v1.8.1 // indirect
 	github.com/golang/protobuf v1.5.2 // indirect
-	github.com/golang/snappy v0.0.3 // indirect
 	github.com/google/uuid v1.3.0 // indirect
 	github.com/hashicorp/golang-lru v0.5.4 // indirect
 	github.com/oschwald/geoip2-golang v1.5.0 // indirect
